@@ -25,6 +25,40 @@ type sqlRow struct {
 	cols  []string
 	vals  []int
 	nulls []bool
+	tabs  []string // optional: table of each column (joined rows); qualified references then match table and column
+}
+
+// colRef resolves a (possibly qualified and quoted) column reference.
+func (r *sqlRow) colRef(w string) (int, bool, bool) {
+	if r.tabs == nil {
+		return r.col(stripQuotes(w))
+	}
+	tab, name := splitQualified(w)
+	for i := range r.cols {
+		if r.cols[i] == name && (tab == "" || r.tabs[i] == tab) {
+			return r.vals[i], r.nulls[i], true
+		}
+	}
+	return 0, false, false
+}
+
+// splitQualified: `t`.`a` -> (t, a) ; `a` -> ("", a)
+func splitQualified(w string) (string, string) {
+	clean := make([]byte, 0, len(w))
+	dot := -1
+	for i := 0; i < len(w); i++ {
+		if w[i] == '`' {
+			continue
+		}
+		if w[i] == '.' {
+			dot = len(clean)
+		}
+		clean = append(clean, w[i])
+	}
+	if dot < 0 {
+		return "", string(clean)
+	}
+	return string(clean[:dot]), string(clean[dot+1:])
 }
 
 func (r *sqlRow) col(name string) (int, bool, bool) {
@@ -165,7 +199,10 @@ type sqlParser struct {
 	vars []interface{}
 	nvar int
 	row  *sqlRow
-	// named: resolves @name placeholders? not needed: gorm rewrites them to ?
+	// soft: an unknown column is recorded in err instead of failing the run (the
+	// relational model turns it into a statement error, like a database would)
+	soft bool
+	err  string
 }
 
 func (p *sqlParser) peek() sqlTok {
@@ -248,9 +285,13 @@ func (p *sqlParser) parsePrimary() tv3 {
 	if t.kind != "word" {
 		verifrt.Fail("sqlwhere.expected-column:" + t.kind)
 	}
-	cv, cn, ok := p.row.col(stripQuotes(t.text))
+	cv, cn, ok := p.row.colRef(t.text)
 	if !ok {
-		verifrt.Fail("sqlwhere.unknown-column:" + t.text)
+		if p.soft {
+			p.err = "no such column: " + t.text
+		} else {
+			verifrt.Fail("sqlwhere.unknown-column:" + t.text)
+		}
 	}
 	n := p.next()
 	switch {
@@ -258,7 +299,7 @@ func (p *sqlParser) parsePrimary() tv3 {
 		rhs := p.next()
 		if rhs.kind == "word" {
 			// column compared with column (join conditions)
-			ov, on, ok := p.row.col(stripQuotes(rhs.text))
+			ov, on, ok := p.row.colRef(rhs.text)
 			if !ok {
 				verifrt.Fail("sqlwhere.unknown-column:" + rhs.text)
 			}
@@ -326,6 +367,16 @@ func (p *sqlParser) parsePrimary() tv3 {
 
 // evalWhere parses the text after WHERE and returns its value on the row,
 // together with the number of bound values it consumed.
+// evalWhereSoft is evalWhere for the relational model: unknown columns are reported, not fatal.
+func evalWhereSoft(text string, vars []interface{}, row *sqlRow) (tv3, int, string) {
+	p := &sqlParser{toks: sqlTokens(text), vars: vars, row: row, soft: true}
+	v := p.parseOr()
+	if p.pos != len(p.toks) {
+		verifrt.Fail("sqlwhere.trailing-tokens")
+	}
+	return v, p.nvar, p.err
+}
+
 func evalWhere(text string, vars []interface{}, row *sqlRow) (tv3, int) {
 	p := &sqlParser{toks: sqlTokens(text), vars: vars, row: row}
 	v := p.parseOr()
